@@ -782,6 +782,14 @@ class Discharger:
                 if c[0] == "call" and re.search(r"PartialOrd.*::(gt|ge)$|::(gt|ge)$", c[1]) and len(c[2]) == 2:
                     if origin_str(c[2][0]).lstrip("&") == origin_str(a) and origin_str(c[2][1]).lstrip("&") == origin_str(b) and f.dominates(bs[1], bb, unwind=False) and bs[1] != bs[2]:
                         return ("D-GUARDED-ARITH", "`a - b` under `a > b`")
+                    # ... or on the refused side of `b > a` / `b >= a`?  no: that gives a <= b.  (only the taken side of a > b / a >= b)
+                if c[0] == "call" and re.search(r"PartialOrd.*::(lt|le)$|::(lt|le)$", c[1]) and len(c[2]) == 2:
+                    # the same test written from the other side: `b < a` / `b <= a` taken
+                    if origin_str(c[2][1]).lstrip("&") == origin_str(a) and origin_str(c[2][0]).lstrip("&") == origin_str(b) and f.dominates(bs[1], bb, unwind=False) and bs[1] != bs[2]:
+                        return ("D-GUARDED-ARITH", "`a - b` under `b < a`")
+                    # `a < b` / `a <= b` refused (`if a < b { .. } else { a - b }`): only `<` refused gives a >= b
+                    if re.search(r"::lt$", c[1]) and origin_str(c[2][0]).lstrip("&") == origin_str(a) and origin_str(c[2][1]).lstrip("&") == origin_str(b) and f.dominates(bs[2], bb, unwind=False) and bs[1] != bs[2]:
+                        return ("D-GUARDED-ARITH", "`a - b` where `a < b` was refused")
         if re.search(r"Duration::from_millis$|Duration::from_secs$", name):
             return ("D-TOTAL", "cannot panic")
         return None
@@ -883,9 +891,10 @@ def run(ctx):
                    nontrivial=tainted)
     ctx.floor("C14.A allocation sinks in the region", nsinks, 2)
     ntainted = sum(1 for fid in fns for bb, t, idx in taint.sink_sites(fns[fid]) if T.op_tainted(fns[fid], t["args"][idx]))
-    # the declared Content-Length is known to reach two allocation sites (pre-read buffer, discard buffer): if the taint
-    # no longer gets there, the flow analysis has gone blind (e.g. after a refactoring of the parser) -- fail closed
-    ctx.floor("C14.A allocation sinks reached by a client-declared length", ntainted, 2)
+    # the declared Content-Length is known to reach an allocation site (the pre-read buffer; on the pinned tree also the discard buffer,
+    # which a refactoring may legitimately size by a constant instead): if the taint no longer gets to any, the flow analysis has gone
+    # blind (e.g. after a refactoring of the parser) -- fail closed
+    ctx.floor("C14.A allocation sinks reached by a client-declared length", ntainted, 1)
     ctx.counts["C14.A tainted fields"] = len(T.fields)
 
     res = panic_census(ctx, "C14.B", reg, fns)
